@@ -12,7 +12,7 @@
 #          STEPS  one entry per resume of the fiber the program runs in: status:value (error messages -> <msg>)
 #                 the last entry also shows the run-time arguments after the run (mutations made by `put`)
 #          TRACE  the log written by the tracer `t`, by operator methods of the M tables and by fiber bodies
-#          ERRPOS (line col) of every frame of compiled test code on the stack when an error was raised
+#          ERRPOS (column) of every frame of compiled test code on the stack when an error was raised
 #
 # The region between the two marker lines below is pasted verbatim into replay files (it must run on a plain
 # janet without the prelude and without verif/ natives).
@@ -148,7 +148,8 @@
   (def b @"")
   (each fr (debug/stack fb)
     (when (= (get fr :source) "c15")
-      (buffer/push b "(" (string (get fr :source-line)) " " (string (get fr :source-column)) ")")))
+      # every form of an item is on one line of the items file: the column identifies the position
+      (buffer/push b "(" (string (get fr :source-column)) ")")))
   (string b))
 
 (defn payload [st v]
